@@ -24,7 +24,7 @@ RULE = ("each forked case runs a ProgGen program through the production Logger w
         "log_call / preserved callables return the function's own result object. non-trivial = >=1 injected fault actually fired; "
         "distinct by (fault kind x message kind hit) signature of the run plus program shape")
 ASSUMPTIONS = ["destinations, serializers and extractors raise Exception subclasses; extractors return dicts",
-               "MemoryLogger as a sink belongs to C14/C16"]
+               "a MemoryLogger appears as explicit logger argument of part of the calls (it must not raise either); what it records is judged by C14/C16"]
 
 REG_CLASSES = ["BaseException", "Exception", "OSError", "LookupError", "ValueError", "KeyError", "UserError", "DeepUserError",
                "UserBase", "RuntimeError", "BadStr", "ExtractorBoom"]
@@ -162,6 +162,7 @@ def run_case(spec):
     it.explicit_loggers = True
     it.late_calls = True
     it.tb_without_exception = True
+    it.memory_loggers = True
     it.strict_warnings = spec["i"] % 3 == 0  # a third of the processes run with warnings turned into errors
     try:
         it.run(prog)
